@@ -2,6 +2,7 @@
 from ..ir import E
 from .. import q
 from ..fsm import reachable, state_outcomes
+from ..flow import reg_flow, TOP
 
 TITLE = 'endpoint isolation'
 FLOOR = 30
@@ -13,7 +14,9 @@ DECIDES = ('For every non-control endpoint class (USBInTransferManager as used b
            'endpoint wires to exactly that comparison) together with the direction atom (is_in for IN endpoints, is_out / is_ping '
            'for OUT endpoints), or (ii) lies in an FSM state that is unreachable from the initial state once the gated edges are '
            'removed. The endpoint multiplexer only broadcasts tokenizer / handshakes_in to all endpoints and ORs their '
-           'requests, so the gating must be (and is checked) in the endpoints. ')
+           'requests, so the gating must be (and is checked) in the endpoints; a registered tx stream flag of the transfer manager '
+           '(first) is, by forward dataflow of its possible values over the FSM, certainly 0 in every state other than the sending '
+           'state, so nothing stale is ORed into another endpoint\'s transaction. ')
 NOT_DECIDED = 'the control endpoint (C07); data contents; the PID-toggle multiplexer of USBEndpointMultiplexer.'
 TOK = 'self.interface.tokenizer.'
 EPI = 'self._endpoint_number == ' + TOK + 'endpoint'
@@ -71,6 +74,24 @@ def run(ctx):
         o = state_outcomes(f, s, {'self.tokenizer.new_token': True, 'self.discard': False, 'self.handshakes_in.ack': False})
         ctx.ob('C12.ack-consumption', 'USBInTransferManager.ack-state.left-on-token', None not in o and s not in o, f.state_loc[s],
                'the ACK-wait state is left on ANY new token (so a later ACK belonging to another endpoint cannot be taken): %s' % sorted(map(str, o)))
+    # the endpoint multiplexer ORs the tx streams of all endpoints without looking at valid: a REGISTERED stream flag of an
+    # endpoint (first / last / valid written in a clocked domain) that is still set while the endpoint is not sending is
+    # driven into the transactions of the other endpoints.  Forward dataflow of its possible values: outside the state
+    # that holds packet_stream.valid the flag is certainly 0.
+    send_states = {q.state_of(a) for a in q.raises(tm, 'self.packet_stream.valid') if not a.guard}
+    for flag in ('self.packet_stream.first', 'self.packet_stream.last', 'self.packet_stream.valid'):
+        ds = tm.drivers(flag, exact=True)
+        if not ds or all(d.domain == 'comb' for d in ds):
+            continue            # combinational: 0 by default whenever no site drives it (the sites are gated above)
+        after, possible = reg_flow(tm, f, flag)
+        for st in f.states:
+            if st in send_states:
+                continue
+            vals = set(possible[st])
+            ctx.ob('C12.quiet-when-not-sending', 'USBInTransferManager.%s@state%d' % (flag.replace('self.', ''), f.states.index(st)),
+                   vals <= {0}, f.state_loc[st],
+                   'the registered flag %s is ORed into the shared transmit stream by the endpoint multiplexer: it must be 0 whenever this '
+                   'endpoint is not in its sending state; possible values in state %s: %s' % (flag, st, sorted(map(str, vals))))
     ine = ctx.ir('USBStreamInEndpoint', 'endpoints.stream')
     d = ine.drivers('tx_manager.active', exact=True)
     ctx.ob('C12.active-wiring', 'USBStreamInEndpoint.tx_manager.active', len(d) == 1 and d[0].rhs.canon() == EPI and not d[0].guard, d[0].loc if d else None,
